@@ -11,12 +11,13 @@ from props import gearseq_lib as L
 ID = "C07"
 MODULE = "DaliVerif.Props.C07"
 EXES = ["m_gearseq"]
-GEN = False
+GEN = True
 THEOREMS = ["findNext_spec", "findNext_run", "findNext_run_full", "commissioning_ends_with_terminate",
             "commissioning_all_disabled", "bus_counts", "findNext_on_bus", "inner_step", "round_inv",
             "commissioning_addresses", "commissioning_count", "commissioning_raise", "unconfirmed_verify_raises",
             "commissioning_bound", "commissioning_terminates", "commissioning_holds", "commissioning_others",
-            "commissioning_dry", "commissioning_spec", "commissioning_spec_separating"]
+            "commissioning_dry", "commissioning_spec", "commissioning_spec_separating",
+            "cmd_sendtwice_gen", "cmd_frames_gen"]
 TRUSTED = ["hand-written models Model/GearSeq.lean of _find_next and Commissioning (dali/sequences.py), tied by "
            "lock-step execution of the real generator (every command, progress and sleep object)",
            "specification bus Spec/GearBus.lean: my reading of IEC 62386-102 random addressing (INITIALISE, RANDOMISE, "
